@@ -350,6 +350,85 @@ func (c *Ctx) ruleC12(m *scanfsm.Machine) {
 		}
 	}
 	c.checkPairs(m)
+	// the annotation is the last lexeme on the directive line
+	r.Rule("C12-ANNOTATION-LAST", "every transition that emits AnnotationEnd hands the control back: it pops the step that was waiting when the annotation began, or enters a line-comment state (which pops at the end of the line); it never goes on in a state that accepts further parameters or annotations of the same directive (quick-tier form of the Annotation clause of C12-GRAMMAR)", 2)
+	{
+		// line-comment states: states that, on LF, pop without emitting anything
+		popsOnLF := map[string]bool{}
+		for _, st := range m.Steps {
+			for _, o := range m.Trans[st]['\n'] {
+				pops, emits := false, false
+				for _, e := range o.Effs {
+					if e.K == scanfsm.EPop {
+						pops = true
+					}
+					if e.K == scanfsm.EFound {
+						emits = true
+					}
+				}
+				if pops && !emits {
+					popsOnLF[st] = true
+				}
+			}
+			// ... and emit nothing on any byte, nor start anything (a state that begins a parameter on a letter is not
+			// a comment)
+			if popsOnLF[st] {
+				for b := 0; b < 256 && popsOnLF[st]; b++ {
+					for _, o := range m.Trans[st][b] {
+						for _, e := range o.Effs {
+							if e.K == scanfsm.EFound || e.K == scanfsm.EPush {
+								popsOnLF[st] = false
+							}
+						}
+						if fs := o.FinalStep(); o.Term == scanfsm.TOk && fs != "" && fs != "<pop>" && fs != st {
+							popsOnLF[st] = false // leaves for another state: not a plain skip-to-end-of-line
+						}
+					}
+				}
+				if !popsOnLF[st] {
+					delete(popsOnLF, st)
+				}
+			}
+		}
+		nAE := 0
+		badAE := map[string]string{}
+		for _, st := range m.Steps {
+			for b := 0; b < 256; b++ {
+				for _, o := range m.Trans[st][b] {
+					ends, pops := false, false
+					for _, e := range o.Effs {
+						if e.K == scanfsm.EFound && e.Ev == "AnnotationEnd" {
+							ends = true
+						}
+						if e.K == scanfsm.EPop {
+							pops = true
+						}
+					}
+					if !ends || o.Term == scanfsm.TErr {
+						continue
+					}
+					nAE++
+					if fs := o.FinalStep(); !pops && !popsOnLF[fs] {
+						badAE[st] = fmt.Sprintf("on byte %q the annotation ends and the scanner goes on in %s", byte(b), fs)
+					}
+				}
+			}
+		}
+		var bs []string
+		for st := range badAE {
+			bs = append(bs, st)
+		}
+		sort.Strings(bs)
+		for _, st := range bs {
+			r.Bad("C12-ANNOTATION-LAST", "state "+st, badAE[st]+": what follows on the line is read as more parameters or a second annotation of the same directive instead of by the step that was waiting", c.P.Pos(m.Pos[st]))
+		}
+		if len(bs) == 0 && nAE > 0 {
+			r.Ok("C12-ANNOTATION-LAST", "all transitions", fmt.Sprintf("%d transitions emit AnnotationEnd; each pops or enters a line comment", nAE), "")
+			r.Ok("C12-ANNOTATION-LAST", "line-comment states", fmt.Sprintf("%d states pop on LF without an event", len(popsOnLF)), "")
+		} else if nAE == 0 {
+			r.Undecided("C12-ANNOTATION-LAST", "sites", "no transition emits AnnotationEnd", "")
+		}
+	}
 	// a body whose length comes from an opaque reader (schema, enum) ends where the reader stopped
 	r.Rule("C12-READER-END", "where a step hands a body to an opaque reader and moves the cursor to its last byte (jump), the state that follows emits the End event of that lexeme at cursor-1 on EVERY byte it accepts: the lexeme is exactly what the reader measured, nothing of the rest of the line", 2)
 	after := map[string]string{} // state after a reader -> lexeme kind it must end
@@ -1269,6 +1348,28 @@ func (c *Ctx) ruleUnquote() {
 // ruleNormalisers: newline content inside Description text and annotations is normalised the same way for LF, CRLF and CR.
 func (c *Ctx) ruleNormalisers() {
 	r := c.R
+	// no wrapper may decide by itself which texts need the normaliser
+	r.Rule("C08-NORMALISER-NO-BYPASS", "no library function returns one of its parameters through catalog.Annotation (or core.description) on one path and untouched on another: whatever test picks the path knows fewer cases than the normaliser (expected count 0; the matcher is shown to find its built-in example on every run)", 1)
+	if why := normaliserBypassSelfTest(); why != "" {
+		r.Undecided("C08-NORMALISER-NO-BYPASS", "self-test", why, "")
+	} else {
+		ann := c.P.LookupFunc("catalog", "Annotation")
+		desc := c.P.LookupFunc("core", "description")
+		nb := 0
+		for _, f := range c.libFns() {
+			fpk := f.Pkg
+			for _, p := range normaliserBypasses(fpk.TypesInfo, f.Decl, func(call *ast.CallExpr) bool {
+				cal := callee(fpk, call)
+				return cal != nil && (cal == ann || cal == desc)
+			}) {
+				nb++
+				r.Bad("C08-NORMALISER-NO-BYPASS", f.Name()+" | parameter "+p, "the text is normalised on one path and returned as it came on another: a layout the path test does not think of (CR-only line ends, a tab, a run of blanks) reaches the catalog unnormalised", c.pos(f.Decl.Pos()))
+			}
+		}
+		if nb == 0 {
+			r.Ok("C08-NORMALISER-NO-BYPASS", "library", "no conditional wrapper of a normaliser (the matcher finds the one in its built-in example)", "")
+		}
+	}
 	r.Rule("C08-NORMALISERS", "core.description replaces CRLF by LF BEFORE it replaces a lone CR by LF (the other order turns CRLF into two line ends) and does both before anything else looks at the text; catalog.Annotation trims and collapses every run of white space (regexp \\s+, which covers CR, LF and TAB) into one blank", 2)
 	if f := c.fn("core", "description"); f != nil {
 		pk := f.Pkg
@@ -1386,6 +1487,62 @@ func (c *Ctx) ruleNormalisers() {
 // same line structure. In every state in which a line break is simply the end of the line (the step function emits
 // nothing for LF and goes to the state that expects a keyword), the end of the file must not be an error either:
 // otherwise a piece that is legal with a trailing line break is rejected without one.
+// ruleStartState: the scanner of an included file starts in the machine's initial state, while the unsplit document is,
+// at the same place, in the state that expects a keyword at the start of a line. Whatever may stand there in the
+// unsplit document - a keyword, a blank line, a comment, the "(" that opens the context of the directive before the
+// cut, the ")" that closes one - must be taken the same way by the initial state.
+func (c *Ctx) ruleStartState(m *scanfsm.Machine, rule string) {
+	r := c.R
+	r.Rule(rule, "for every byte the initial state of the scanner (where an INCLUDEd file starts) has the same outcomes as the state that expects a keyword at the start of a line (where the unsplit document is at a cut between directives), apart from the name of the state the step variable is left in", 1)
+	// the keyword-expecting line-start state: the state most transitions on LF without an event lead to
+	votes := map[string]int{}
+	for _, st := range m.Steps {
+		for _, o := range m.Trans[st]['\n'] {
+			if o.Term != scanfsm.TOk {
+				continue
+			}
+			ev := false
+			for _, e := range o.Effs {
+				if e.K == scanfsm.EFound {
+					ev = true
+				}
+			}
+			if fs := o.FinalStep(); !ev && fs != "" && fs != "<pop>" {
+				votes[fs]++
+			}
+		}
+	}
+	best, bn := "", 0
+	for st, n := range votes {
+		if n > bn || (n == bn && st < best) {
+			best, bn = st, n
+		}
+	}
+	if best == "" {
+		r.Undecided(rule, "anchor", "no line-start state recognised", "")
+		return
+	}
+	norm := func(sig, self string) string {
+		return strings.ReplaceAll(sig, "step="+self, "step=<self>")
+	}
+	var diffs []string
+	for b := 0; b < 256; b++ {
+		x := norm(m.OutcomeSig(m.InitStep, byte(b)), m.InitStep)
+		y := norm(m.OutcomeSig(best, byte(b)), best)
+		if x != y {
+			diffs = append(diffs, fmt.Sprintf("%q: %s gives [%s], %s gives [%s]", byte(b), m.InitStep, trunc(x, 90), best, trunc(y, 90)))
+		}
+	}
+	if len(diffs) == 0 {
+		r.Ok(rule, m.InitStep+" = "+best, "identical outcomes for all 256 bytes", c.P.Pos(m.Pos[m.InitStep]))
+	} else {
+		if len(diffs) > 4 {
+			diffs = append(diffs[:4], fmt.Sprintf("... %d more", len(diffs)-4))
+		}
+		r.Bad(rule, m.InitStep+" = "+best, "a piece cut out at a directive boundary is read differently when it starts a file of its own: "+strings.Join(diffs, "; "), c.P.Pos(m.Pos[m.InitStep]))
+	}
+}
+
 func (c *Ctx) ruleEOFAsEOL(m *scanfsm.Machine, a *scanfsm.Analysis) {
 	r := c.R
 	r.Rule("C09-EOF-AS-EOL", "in every reachable scanner state where LF only ends the line (no event, next state = the keyword-expecting state) the end of the file is accepted as well: a file that is INCLUDEd may end without a line break at any such point", 3)
